@@ -187,10 +187,17 @@ def run(case):
         # a profile *file* carrying its own options (values the archive has to carry too, including falsy ones);
         # the reads of one planted copy then have mapping quality 5 so that `min_mapq: 0` matters
         # features are assigned by case number so that every tier drives each of them several times
-        feature = {1: "cli_min_avg", 2: "opts_mapq", 3: "opts_min_avg"}.get(case["k"] % 6)
+        feature = {1: "cli_min_avg", 2: "opts_mapq", 3: "opts_min_avg", 4: "overlap", 5: "neutral_hole"}.get(case["k"] % 6)
+        if feature == "neutral_hole":
+            # a few bases of the neutral region without any read (low-depth / partial capture)
+            a0 = db.neutral[0] + 300
+            rds = [r_ for r_ in rds if not (r_.get("hap") == -1 and r_["start"] <= a0 + 6 and r_["start"] + rl >= a0)]
         popts = None
-        if rng.random() < 0.3 or feature in ("opts_mapq", "opts_min_avg"):
+        if rng.random() < 0.3 or feature in ("opts_mapq", "opts_min_avg", "overlap"):
             popts = {}
+            if feature == "overlap":
+                # the profile presets a parameter the user also gives: the user's value counts, in both runs
+                popts["min_avg_coverage"] = 100
             if rng.random() < 0.7 or feature == "opts_mapq":
                 popts["min_mapq"] = 0
                 for r_ in rds:
@@ -236,6 +243,8 @@ def run(case):
             params += ["--param", "display_format=true"]
         if feature == "cli_min_avg":
             params += ["--param", f"min_avg_coverage={rng.choice([60, 100])}"]
+        elif feature == "overlap":
+            params += ["--param", "min_avg_coverage=5"]
         elif rng.random() < 0.25:
             # also minimum depths above the sample's own (about 40x): both runs must then refuse the gene
             params += ["--param", f"min_avg_coverage={rng.choice([5, 5, 60, 100])}"]
